@@ -1665,12 +1665,14 @@ def _stage_histories(ctx, defaults):
     for h in hs:
         for st in h["seq"]:
             ctx.tally("history:" + st["inp"]["op"].split("_")[0] + ":" + (st.get("reuse") or "fresh") + ("+poison" if st.get("poison") else ""))
-    ctx.run_cases(OPS["history"], hs)
+    c10_hist.keep_self_contained(ctx, OPS["history"], ctx.run_cases(OPS["history"], hs))
     c = _count(ctx, "enum:tag_history", enum_tag_histories())
-    ctx.run_cases(OPS["tag_history"], c)
+    fails = ctx.run_cases(OPS["tag_history"], c)
     ctx.exhaustive["tag histories"] = (f"{len(c)} histories: import a label, correct the returned tag in place, import the label again, "
                                        "for every ordered pair of the six import routes x every option record of the default tag construction")
-    ctx.run_cases(OPS["tag_history"], _count(ctx, "tag_history:random", gen_tag_histories(rng, ctx.budget(300, 2500))))
+    fails += ctx.run_cases(OPS["tag_history"], _count(ctx, "tag_history:random", gen_tag_histories(rng, ctx.budget(300, 2500))))
+    c10_hist.keep_self_contained(ctx, OPS["tag_history"], fails)
+    c10_hist.fresh_modules()          # nothing the last history left behind reaches the stages that follow
 
 
 def gen_positional(rng, defaults, sigs, reps):
@@ -1798,23 +1800,32 @@ def _stage_roundtrip(ctx):
 
 
 def run(ctx):
-    ctx.stage("corpus", ctx.run_corpus, OPS)
+    import time
+    times = {}
+
+    def stage(name, fn, *a):
+        t0 = time.time()
+        r = ctx.stage(name, fn, *a)
+        times[name] = round(time.time() - t0, 1)
+        return r
+    stage("corpus", ctx.run_corpus, OPS)
     # ties 1 and 1b
-    ctx.stage("keyword-defaults", _defaults_obligation, ctx)
-    ctx.stage("positional-signatures", _signatures_obligation, ctx)
-    ctx.stage("symbolic-ties", _symbolic_ties, ctx)
-    ctx.stage("discharge", ctx.discharge, ["SoundeventModel.Crowsetta", "SoundeventModel.CrowsettaHist", "SoundeventModel.Tactics"])
+    stage("keyword-defaults", _defaults_obligation, ctx)
+    stage("positional-signatures", _signatures_obligation, ctx)
+    stage("symbolic-ties", _symbolic_ties, ctx)
+    stage("discharge", ctx.discharge, ["SoundeventModel.Crowsetta", "SoundeventModel.CrowsettaHist", "SoundeventModel.Tactics"])
     defaults = _model_defaults(ctx)
     # (a) the abstracted option space of both cascades, exhaustively
-    ctx.stage("cascades", _stage_cascades, ctx)
+    stage("cascades", _stage_cascades, ctx)
     # (b) numeric correspondence through real crowsetta objects
-    ctx.stage("import", _stage_import, ctx)
-    ctx.stage("export", _stage_export, ctx, defaults)
+    stage("import", _stage_import, ctx)
+    stage("export", _stage_export, ctx, defaults)
     # (c) the round trip through real crowsetta objects: correspondence + monitor
-    ctx.stage("roundtrip", _stage_roundtrip, ctx)
+    stage("roundtrip", _stage_roundtrip, ctx)
     # (d) histories in one process, the store semantics of returned tags, positional calls (HISTORIES.md)
-    ctx.stage("histories", _stage_histories, ctx, defaults)
-    ctx.stage("positional", _stage_positional, ctx, defaults)
+    stage("histories", _stage_histories, ctx, defaults)
+    stage("positional", _stage_positional, ctx, defaults)
+    ctx.note("stage seconds: " + ", ".join(f"{k} {v}" for k, v in times.items()))
 
 
 def search(ctx, failures):
